@@ -52,6 +52,10 @@ type Op struct {
 	Rotate   int    `json:"rotate,omitempty"`
 	Verbose  bool   `json:"verbose,omitempty"`
 	NoCompr  bool   `json:"nocompr,omitempty"`
+	// start: run the real background loop SyncWAL(walRefresh, primaryRefresh, rotate) with these periods (ms)
+	LoopWalMs  int `json:"loop_wal_ms,omitempty"`
+	LoopPrimMs int `json:"loop_prim_ms,omitempty"`
+	SleepMs    int `json:"sleep_ms,omitempty"`
 	// create / getinfo / destroy
 	Key   string   `json:"key,omitempty"`
 	Names []string `json:"names,omitempty"`
@@ -271,9 +275,24 @@ func (c *Ctx) Exec(o *Op) (obs Obs) {
 		}
 		c.In = inst.Start(o.Root, opts)
 		atomic.StoreUint32(&frontend.Queryable, 1)
+		if o.LoopWalMs > 0 {
+			// what internal/di/wal.go does when BackgroundSync is on, with configurable periods
+			rot := o.Rotate
+			if rot <= 0 {
+				rot = 5
+			}
+			go c.In.WAL.SyncWAL(time.Duration(o.LoopWalMs)*time.Millisecond, time.Duration(o.LoopPrimMs)*time.Millisecond, rot)
+			c.In.WAL.IncrementWaitGroup()
+			for i := 0; i < 200 && !LoopRunning(); i++ {
+				time.Sleep(time.Millisecond)
+			}
+		}
 		return Obs{"ok": true, "wal": filepath.Base(c.In.WAL.FilePtr.Name())}
 	case "shutdown":
 		c.In.WAL.Shutdown()
+		return Obs{"ok": true}
+	case "sleep":
+		time.Sleep(time.Duration(o.SleepMs) * time.Millisecond)
 		return Obs{"ok": true}
 	case "checkpoint":
 		// what SyncWAL does on tickerPrimary (without rotation)
